@@ -15,8 +15,8 @@ import (
 
 // TestValid: every generated program must be accepted by go/parser and go/types
 // (a rejected program is a generator bug, never a finding).
-func TestValid(t *testing.T)      { valid(t, Gen(), 1500) }
-func TestValidMarks(t *testing.T) { valid(t, GenOpt(Options{Marks: true, Layout: true}), 300) }
+func TestValid(t *testing.T)      { valid(t, Gen(), 2500) }
+func TestValidMarks(t *testing.T) { valid(t, GenOpt(Options{Marks: true, Layout: true}), 800) }
 
 func valid(t *testing.T, g *rapid.Generator[*Program], n int) {
 	imp := importer.ForCompiler(token.NewFileSet(), "source", nil)
